@@ -26,6 +26,10 @@ func (n *Nodis) Del(keys ...string) int64 {
 			}
 			tx.delKey(key)
 			n.signalModifiedKey(key, meta)
+			deleted := key
+			n.notify(func() []patch.Op {
+				return []patch.Op{{Type: patch.OpTypeDel, Data: &patch.OpDel{Key: deleted}}}
+			})
 			c++
 		}
 		return nil
